@@ -29,6 +29,7 @@ def main():
     ap.add_argument('--demo', action='store_true', help='also run the demonstration with and without the change')
     ap.add_argument('--no-checks', action='store_true')
     ap.add_argument('--tests', action='store_true', help='also run the repository test-suite with the change')
+    ap.add_argument('--benign', action='store_true', help='the change keeps the property: every check must stay quiet')
     args = ap.parse_args()
     d = (VERIF / args.dir).resolve() if not os.path.isabs(args.dir) else Path(args.dir)
     meta = json.loads((d / 'meta.json').read_text())
@@ -88,8 +89,8 @@ def main():
                                                                            '   new violation class', c + ' '))]
             result['checks'][c] = {'rc': r.returncode, 'caught': r.returncode == 1, 'wall_s': round(time.time() - t, 1),
                                    'lines': lines[:12]}
-            print(c, 'rc', r.returncode, 'CAUGHT' if r.returncode == 1 else ('not caught' if r.returncode == 0 else 'ERROR'),
-                  f'{time.time() - t:.0f}s')
+            word = {1: 'CAUGHT', 0: 'not caught'} if not args.benign else {1: 'FALSE-ALARM', 0: 'quiet'}
+            print(c, 'rc', r.returncode, word.get(r.returncode, 'ERROR'), f'{time.time() - t:.0f}s')
             for ln in lines[:6]:
                 print('   ', ln[:220])
             if r.returncode not in (0, 1):
@@ -100,6 +101,14 @@ def main():
         shutil.rmtree(f'/var/tmp/fjverif-seeded-out-{os.getpid()}', ignore_errors=True)
         sh(['git', '-C', '/repo', 'worktree', 'prune'])
     # regenerate evidence files from /repo itself is the caller's business; remove replays of the seeded run
+    if (d / 'result.json').exists():
+        try:        # keep what an earlier, fuller run recorded (demonstration and test-suite outcomes)
+            prev = json.loads((d / 'result.json').read_text())
+            for k in ('demo_clean_rc', 'demo_changed_rc', 'tests_rc', 'tests_tail'):
+                if k not in result and k in prev:
+                    result[k] = prev[k]
+        except ValueError:
+            pass
     (d / 'result.json').write_text(json.dumps(result, indent=1))
     return 0
 
